@@ -301,7 +301,25 @@ fn kind_access<T: Tok>() -> Vec<(String, Vec<&'static str>, Vec<&'static str>, V
                     lifecycle = Some(format!("a copy of the handle changes the borrow state: {:?} with the copy, {:?} with one of the two dropped (copy outlives: {}), expected {:?} throughout", with_clone, one_left, clone_outlives, a));
                 }
             }
-            drop(d);
+            // re-targeting a handle: `a.clone_from(&b)` with `b` fetched from ANOTHER world gives up
+            // what `a` borrowed and borrows what `b` borrows
+            {
+                let mut w2 = World::new();
+                T::register(&mut w2);
+                let mut a: ReadStorage<T> = SystemData::fetch(w);
+                drop(d);
+                let b: ReadStorage<T> = SystemData::fetch(&w2);
+                let one = state(&w2);
+                a.clone_from(&b);
+                let first_world = state(w);
+                drop(b);
+                let second_world = state(&w2);
+                drop(a);
+                let second_after = state(&w2);
+                if first_world.iter().any(|x| *x != 0) || second_world != one || second_after.iter().any(|x| *x != 0) {
+                    lifecycle = Some(format!("a.clone_from(&b) across two worlds: the first world's borrow state is {:?} afterwards (expected nothing borrowed), the second world's {:?} with only the re-targeted handle left (expected {:?}) and {:?} after it was dropped", first_world, second_world, one, second_after));
+                }
+            }
             let after = state(w);
             if after.iter().any(|x| *x != 0) && lifecycle.is_none() {
                 lifecycle = Some(format!("after the handle and its copies were dropped the borrow state is {:?}, expected nothing borrowed", after));
@@ -704,8 +722,19 @@ pub fn replay_trace(g: &Graph, stages: &Stages, trace: &[(bool, usize)]) -> Resu
 
 /// Ungated real dispatch: every system runs exactly once, no panic escapes.
 pub fn plain_dispatch(g: &Graph) -> Result<(), String> {
+    plain_dispatch_on(g, false)?;
+    // a world that owns nothing yet: everything the systems need comes from `Dispatcher::setup`
+    // (storage handles need the table of storages that only `World::new` provides, so this
+    // variant is for graphs of entity / lazy-update / empty systems)
+    if !g.shapes.iter().all(|s| [0usize, 9, 10].contains(s)) {
+        return Ok(());
+    }
+    plain_dispatch_on(g, true).map_err(|m| format!("{} [world built by World::empty() + Dispatcher::setup only]", m))
+}
+
+fn plain_dispatch_on(g: &Graph, bare: bool) -> Result<(), String> {
     let ctl = Arc::new(Ctl { st: Mutex::new(CtlState::default()), cv: Condvar::new() });
-    let mut w = new_world();
+    let mut w = if bare { World::empty() } else { new_world() };
     let mut d = build(g, &ctl).build();
     d.setup(&mut w);
     catch(|| d.dispatch(&w)).map_err(|m| format!("dispatch-panic: a panic escaped Dispatcher::dispatch: {}", m.lines().next().unwrap_or("")))?;
